@@ -38,6 +38,7 @@ type xDoc struct {
 	Extra    []string // further top-level elements "name=type" (targets of element refs)
 	Types    []*xType
 	Cons     map[string]bool
+	Spice    string
 }
 
 func (d *xDoc) typ(name string) *xType {
@@ -170,6 +171,13 @@ func (g *xGen) fields(t *xType, complexNames, simpleNames []string, n int) {
 			f.Max = 1
 			g.con("occurs-0-1")
 		}
+		if f.Builtin == "boolean" && (f.Min > 0 || f.Max >= 0) {
+			if g.spice["bool-occurs"] {
+				g.con("boolean-with-explicit-occurs")
+			} else {
+				f.Min, f.Max = []int{-1, 0}[r.Intn(2)], -1
+			}
+		}
 		t.Fields = append(t.Fields, f)
 	}
 	for i, na := 0, r.Intn(3); i < na && r.Chance(2, 3); i++ {
@@ -185,7 +193,13 @@ func (g *xGen) fields(t *xType, complexNames, simpleNames []string, n int) {
 
 func genXSD(r *fw.Rand, thorough bool) *xDoc {
 	d := &xDoc{Prefix: r.Pick([]string{"xs", "xs", "xsd"}), TNS: r.Chance(1, 4), Cons: map[string]bool{}}
-	g := &xGen{r: r, d: d, used: map[string]bool{}, spice: map[string]bool{"stmt-keyword": r.Chance(1, 12), "prefix-type": r.Chance(1, 10)}}
+	g := &xGen{r: r, d: d, used: map[string]bool{}, spice: map[string]bool{}}
+	// at most one known defect candidate per document (see oasgen.go)
+	if r.Chance(2, 5) {
+		d.Spice = r.Pick([]string{"stmt-keyword", "prefix-type", "recursive-type", "bool-occurs"})
+		g.spice[d.Spice] = true
+		g.con("spice-" + d.Spice)
+	}
 	if d.TNS {
 		g.con("targetNamespace")
 	}
@@ -221,6 +235,10 @@ func genXSD(r *fw.Rand, thorough bool) *xDoc {
 			simpleNames = append(simpleNames, names[i])
 		}
 	}
+	// references between complex types form a DAG (a type only refers to complex types
+	// generated before it) unless the document is chosen to carry a recursive type.
+	recursive := g.spice["recursive-type"]
+	var earlier []string
 	for i := 0; i < nt; i++ {
 		t := &xType{Name: names[i], K: kinds[i]}
 		switch kinds[i] {
@@ -231,7 +249,12 @@ func genXSD(r *fw.Rand, thorough bool) *xDoc {
 				t.Comp = "all"
 				g.con("all")
 			}
-			g.fields(t, complexNames, simpleNames, 1+r.Intn(7))
+			allowed := earlier
+			if recursive {
+				allowed = complexNames
+			}
+			g.fields(t, allowed, simpleNames, 1+r.Intn(7))
+			earlier = append(earlier, names[i])
 		case "simple":
 			g.con("simpleType")
 			t.Base = r.Pick([]string{"string", "string", "integer", "NMTOKEN", "date"})
@@ -258,12 +281,13 @@ func genXSD(r *fw.Rand, thorough bool) *xDoc {
 		}
 		d.Types = append(d.Types, t)
 	}
-	// an extension must not repeat a name of its base
+	// an extension must not repeat a name of its base, and extends a sequence group
 	for _, t := range d.Types {
 		if t.K != "extension" {
 			continue
 		}
 		base := d.typ(t.Base)
+		base.Comp = "sequence"
 		seen := map[string]bool{}
 		for _, f := range base.Fields {
 			seen[f.Name] = true
@@ -306,7 +330,43 @@ func genXSD(r *fw.Rand, thorough bool) *xDoc {
 			g.con("element-ref")
 		}
 	}
+	if d.hasCycle() {
+		g.con("recursive-type")
+	}
 	return d
+}
+
+// hasCycle reports whether the named complex types refer to each other in a cycle.
+func (d *xDoc) hasCycle() bool {
+	state := map[string]int{}
+	var visit func(n string) bool
+	visit = func(n string) bool {
+		switch state[n] {
+		case 1:
+			return true
+		case 2:
+			return false
+		}
+		state[n] = 1
+		if t := d.typ(n); t != nil {
+			if t.K == "extension" && visit(t.Base) {
+				return true
+			}
+			for _, f := range t.Fields {
+				if f.Named != "" && visit(f.Named) {
+					return true
+				}
+			}
+		}
+		state[n] = 2
+		return false
+	}
+	for _, t := range d.Types {
+		if visit(t.Name) {
+			return true
+		}
+	}
+	return false
 }
 
 // ---- rendering ----
@@ -472,10 +532,19 @@ type xChecker struct {
 	nTypes, nFields int
 }
 
+// allFields: a complexContent extension carries the elements of its base followed by its
+// own members (golden tests/xsd/extension1); inheritance of the base's ATTRIBUTES is not
+// shown by any golden and is not demanded.
 func (x *xChecker) allFields(t *xType) []*xField {
 	if t.K == "extension" {
 		if b := x.d.typ(t.Base); b != nil {
-			return append(append([]*xField{}, x.allFields(b)...), t.Fields...)
+			var out []*xField
+			for _, f := range x.allFields(b) {
+				if !f.Attr {
+					out = append(out, f)
+				}
+			}
+			return append(out, t.Fields...)
 		}
 	}
 	return t.Fields
@@ -497,7 +566,8 @@ func (x *xChecker) checkType(t *xType) {
 			x.fail("type-form", "kind="+t.K, fmt.Sprintf("%s: compiled as %s, expected an alias", where, def.Form))
 			return
 		}
-		if p, ok := xsdBuiltinWant[t.Base]; ok && t.Base != "token" {
+		// goldens show restrictions of xs:integer (-> int) and string-like bases (-> string)
+		if p, ok := map[string]string{"integer": "INT", "string": "STRING", "NMTOKEN": "STRING", "token": "STRING"}[t.Base]; ok {
 			if def.Alias.Prim != p {
 				x.fail("alias-kind", "kind="+t.K+",base="+t.Base, fmt.Sprintf("%s: base xs:%s expected %s, compiled %s", where, t.Base, p, def.Alias))
 			}
@@ -611,24 +681,12 @@ func (d *xDoc) constructs() []string {
 	return out
 }
 
-// risky lists the constructs of the document that are known candidates for making the
-// output uncompilable; used to narrow the signature of a compile failure.
+// risky: the document's defect candidate, used to narrow the signature of a failure.
 func (d *xDoc) risky() []string {
-	var out []string
-	for _, t := range append(append([]*xType{}, d.Types...), d.RootAnon) {
-		if t == nil {
-			continue
-		}
-		for _, f := range t.Fields {
-			if stmtKeywords[strings.ToLower(f.Name)] {
-				out = append(out, "name=statement-keyword")
-			}
-			if !f.Attr && f.Builtin == "boolean" && (f.Min > 0 || f.Max >= 0) {
-				out = append(out, "xs:boolean+explicit-occurs")
-			}
-		}
+	if d.Spice != "" {
+		return []string{d.Spice}
 	}
-	return dedupe(out)
+	return nil
 }
 
 func dedupe(in []string) []string {
